@@ -23,7 +23,7 @@ META = {
                    "linear-interpolation quantile of the per-resample oracle values; entries are non-decreasing in q; count is n at every quantile; a constant "
                    "metric has all quantiles equal to the point estimate; shapes / columns / index match the point estimate for groups present in a resample.",
     "tier_bounds": {"quick": "n=2: all 4 index vectors, n_boot 1,2 all tuples, n_boot 3 seeded 12; n=3: seeded 4 vectors (n_boot=1), 3 pairs (n_boot=2) per group layout; "
-                             "a control-feature layout with 3 seeded draws; quantile lists [0.25,0.75], [0.5], [0.1,0.5,0.9]; real RNG: seeds 0, 1, 2^31 + 3 random",
+                             "a control-feature layout with 3 seeded draws; quantile lists [0.25,0.75], [0.75,0.25], [0.5,0.9,0.1] (requested order not always ascending); real RNG: seeds 0, 1, 2^31 + 3 random",
                     "thorough": "n=3 n_boot=2 all 729 pairs, n=4 seeded; 30 seeds"},
     "trusted_base": ["z3", "symx", "numpy quantile on object arrays as executed", "DataFrame.sample contract stub"],
     "stubs": ["pandas.DataFrame.sample -> rows at a harness-chosen index vector (mode ii only)", "nanops._ensure_numeric"],
@@ -57,7 +57,7 @@ def setup():
     pd.DataFrame.sample = sample
 
 
-QLISTS = [[0.25, 0.75], [0.5], [0.1, 0.5, 0.9]]
+QLISTS = [[0.25, 0.75], [0.75, 0.25], [0.5, 0.9, 0.1]]  # requested order is not always ascending: entry k belongs to quantile k of the request
 
 
 def jobs(tier, seed):
@@ -197,11 +197,16 @@ def run_job(job, deadline):
                     continue
                 # element-wise non-decreasing in q
                 mono = []
-                for k in range(len(q) - 1):
-                    a, b = ci[k], ci[k + 1]
-                    fa = list(np.asarray(a, dtype=object).ravel()) if isinstance(a, (pd.Series, pd.DataFrame)) else [a]
-                    fb = list(np.asarray(b, dtype=object).ravel()) if isinstance(b, (pd.Series, pd.DataFrame)) else [b]
-                    mono += [O.le(x, y) for x, y in zip(fa, fb)]
+                for k in range(len(q)):
+                    for k2 in range(len(q)):
+                        if k == k2 or not q[k] <= q[k2]:
+                            continue
+                        a, b = ci[k], ci[k2]
+                        if isinstance(a, (pd.Series, pd.DataFrame)) and not a.index.equals(b.index):
+                            continue
+                        fa = list(np.asarray(a, dtype=object).ravel()) if isinstance(a, (pd.Series, pd.DataFrame)) else [a]
+                        fb = list(np.asarray(b, dtype=object).ravel()) if isinstance(b, (pd.Series, pd.DataFrame)) else [b]
+                        mono += [O.le(x, y) for x, y in zip(fa, fb)]
                 if mono:
                     items.append((f"{name}_ci_nondecreasing_in_quantile", z3.And(mono), f"ci:monotone:{name}", ex))
             # values: by_group and overall
@@ -385,8 +390,11 @@ def replay(cex):
         if len(ci) != len(q):
             bad.append(f"{name}_ci has {len(ci)} entries for {len(q)} quantiles")
             continue
-        for k in range(len(q) - 1):
-            a, b = np.asarray(ci[k], dtype=float).ravel(), np.asarray(ci[k + 1], dtype=float).ravel()
-            if a.shape != b.shape or np.any(a > b + 1e-12):
-                bad.append(f"{name}_ci not non-decreasing in q: {a.tolist()} then {b.tolist()}")
+        for k in range(len(q)):
+            for k2 in range(len(q)):
+                if k == k2 or not q[k] <= q[k2]:
+                    continue
+                a, b = np.asarray(ci[k], dtype=float).ravel(), np.asarray(ci[k2], dtype=float).ravel()
+                if a.shape != b.shape or np.any(a > b + 1e-12):
+                    bad.append(f"{name}_ci not non-decreasing in q: q={q[k]} -> {a.tolist()}, q={q[k2]} -> {b.tolist()}")
     return {"reproduced": bool(bad), "detail": "; ".join(bad)[:700] + f" | p={p} groups={groups} ctrl={ctrl} draw={draw} q={q} (scripted draws; DataFrame.sample stubbed)"}
